@@ -1,2 +1,303 @@
+"""C09, names / clones / printing half.
+
+pyvc: next_name, _process_subscript_and_names, DimensionSymbol.__init__, Symbol.__new__/__init__, clone_as_symbol,
+clone_as_function, clone_as_indexed, SymbolPrinter._print_Symbol; ground obligations on the set of name prefixes used in
+the tree; bounded stand-in for SymPy-level non-aliasing (assumed structural equality).
+"""
+from __future__ import annotations
+
+import ast
+import itertools
+
+import z3
+
+from ..core import PKG, Ob, PROVED, REFUTED, FAULT, try_replay
+from ..pyvc import Exec, Ctx, Obj, Opt, NONE, NoneVal, ExcVal, Builtin, TypeRef, GenError, verify_function, discharge
+from ..contracts import frontend as FE
+from ..contracts import model as M
+
+UNIT = "C09"
+S = z3.StringSort()
+DEC = z3.Function("decimal", z3.IntSort(), S)  # str(int): ASSUMED injective, digits only
+
+
+def opt_str(name):
+    return Opt(z3.Bool(name + "_is_none"), z3.String(name))
+
+
+def str_builtin(ex, ctx, args, kw):
+    x = args[0]
+    if z3.is_expr(x) and z3.is_int(x):
+        FE.assumed("str(int)", "decimal representation: injective, consists of digits only")
+        return [(ctx, DEC(x))]
+    if isinstance(x, tuple) and x and x[0] == "__name_of__":
+        return [(ctx, x[1])]
+    if z3.is_expr(x) and x.sort() == S:
+        return [(ctx, x)]
+    if isinstance(x, str):
+        return [(ctx, x)]
+    raise GenError(f"str({x!r})")
+
+
+def truth_model(ex, v):
+    if isinstance(v, dict):
+        return len(v) > 0
+    if isinstance(v, Obj):
+        return True
+    return None
+
+
 def run(report):
-    pass
+    obs, execs = [], []
+    src = "core/symbols/symbols.py"
+    # ---------------- next_name (callee contract: next_id, proved in c09.py)
+    issued = z3.Function("last_issued", S, z3.IntSort())
+
+    def next_id_contract(ex, ctx, args, kw):
+        base = args[0] if args else ""
+        base = z3.StringVal(base) if isinstance(base, str) else base
+        r = ex.fresh("id", z3.IntSort())
+        c = ctx.fork(r == issued(base) + 1, issued(base) >= 0)
+        c.ghost.setdefault("next_id_calls", [])
+        c.ghost["next_id_calls"] = list(c.ghost["next_id_calls"]) + [(base, r)]
+        return [(c, r)]
+
+    g = {"next_id": ("__contract__", "next_id"), "str": Builtin("str", str_builtin)}
+    ex = FE.make_exec(src, UNIT, globals_extra=g, contracts={"next_id": next_id_contract})
+    prefix = z3.String("name")
+    verify_function(ex, "next_name", lambda ex, ctx: ([prefix], {}, None),
+                    lambda ex, ctx, out, info: iter([("result==prefix++decimal(fresh-id-of-that-prefix)",
+                                                      z3.And(len(ctx.ghost.get("next_id_calls", [])) == 1, out[1] == z3.Concat(prefix, DEC(ctx.ghost["next_id_calls"][0][1])))
+                                                      if out[0] == "return" and ctx.ghost.get("next_id_calls") else z3.BoolVal(False)),
+                                                     ("draws-exactly-one-id-from-a-counter-determined-by-the-prefix",
+                                                      z3.BoolVal(len(ctx.ghost.get("next_id_calls", [])) == 1 and (z3.eq(ctx.ghost["next_id_calls"][0][0], prefix) or
+                                                                                                                  z3.is_string_value(ctx.ghost["next_id_calls"][0][0]))))]))
+    execs.append(ex)
+
+    # ---------------- _process_subscript_and_names
+    ex = FE.make_exec(src, UNIT, globals_extra=g)
+    code, latex, sub = z3.String("code_name"), z3.String("latex_name"), opt_str("subscript")
+
+    def post_sub(ex, ctx, out, info):
+        if out[0] != "return":
+            yield "never-raises", z3.BoolVal(False)
+            return
+        c, l = out[1]
+        c = z3.StringVal(c) if isinstance(c, str) else c
+        l = z3.StringVal(l) if isinstance(l, str) else l
+        has = z3.And(z3.Not(sub.is_none), z3.Length(sub.val) > 0)
+        yield "subscript-appended-to-code-name-as-_s", c == z3.If(has, z3.Concat(code, z3.StringVal("_"), sub.val), code)
+        yield "subscript-appended-to-latex-name-as-_{s}", l == z3.If(has, z3.Concat(latex, z3.StringVal("_{"), sub.val, z3.StringVal("}")), latex)
+
+    verify_function(ex, "_process_subscript_and_names", lambda ex, ctx: ([code, latex, sub], {}, None), post_sub)
+    execs.append(ex)
+
+    # ---------------- DimensionSymbol.__init__
+    ex = FE.make_exec(src, UNIT, globals_extra=g)
+    dn, dl, dim = z3.String("display_name"), opt_str("display_latex"), z3.Const("dimension", M.Dim)
+    me = Obj("DimensionSymbol", {})
+
+    def post_ds(ex, ctx, out, info):
+        o = ctx.env["self"]
+        f = o.fields
+        yield "stores-dimension", f.get("_dimension") == dim if "_dimension" in f else z3.BoolVal(False)
+        yield "stores-display-name", f.get("_display_name") == dn if "_display_name" in f else z3.BoolVal(False)
+        want = z3.If(z3.And(z3.Not(dl.is_none), z3.Length(dl.val) > 0), dl.val, dn)
+        got = f.get("_display_latex")
+        yield "latex-name-is-the-given-one-or-the-display-name", (got == want) if got is not None and z3.is_expr(got) else z3.BoolVal(False)
+
+    verify_function(ex, "DimensionSymbol.__init__", lambda ex, ctx: ([me, dn, dim], {"display_latex": dl}, None), post_ds)
+    execs.append(ex)
+
+    # ---------------- clone helpers: forwarding contract, constructor calls recorded
+    def ctor(name):
+        def c(ex, ctx, args, kw):
+            cc = ctx.fork()
+            cc.ghost["ctor"] = (name, tuple(args), dict(kw))
+            return [(cc, Obj(name, {"__made__": True}))]
+        return c
+
+    sub_contract_calls = {}
+
+    def process_contract(ex, ctx, args, kw):
+        c_, l_, s_ = args
+        has = z3.And(z3.Not(s_.is_none), z3.Length(s_.val) > 0) if isinstance(s_, Opt) else z3.BoolVal(False)
+        cc = ctx.fork()
+        cc.ghost["process_args"] = (c_, l_, s_)
+        return [(cc, (z3.If(has, z3.Concat(c_, z3.StringVal("_"), s_.val), c_), z3.If(has, z3.Concat(l_, z3.StringVal("_{"), s_.val, z3.StringVal("}")), l_)))]
+
+    src_name, src_latex, src_dim = z3.String("source_display_name"), z3.String("source_display_latex"), z3.Const("source_dimension", M.Dim)
+    SRC_ASSUME = {"positive": True, "real": True}
+    source = Obj("Symbol", {"display_name": src_name, "display_latex": src_latex, "dimension": src_dim, "assumptions0": dict(SRC_ASSUME)})
+    dsym, dlat, subs = opt_str("display_symbol"), opt_str("display_latex"), opt_str("subscript")
+    has_sub = z3.And(z3.Not(subs.is_none), z3.Length(subs.val) > 0)
+    base_code = z3.If(z3.And(z3.Not(dsym.is_none), z3.Length(dsym.val) > 0), dsym.val, src_name)
+    base_latex = z3.If(z3.And(z3.Not(dlat.is_none), z3.Length(dlat.val) > 0), dlat.val, src_latex)
+    want_code = z3.If(has_sub, z3.Concat(base_code, z3.StringVal("_"), subs.val), base_code)
+    want_latex = z3.If(has_sub, z3.Concat(base_latex, z3.StringVal("_{"), subs.val, z3.StringVal("}")), base_latex)
+
+    for fn, cls, has_subscript, extra_pos in (("clone_as_symbol", "Symbol", True, 0), ("clone_as_function", "Function", True, 1), ("clone_as_indexed", "IndexedSymbol", False, 1)):
+        for passed in ({}, {"negative": True}):
+            gg = dict(g)
+            gg.update({"Symbol": TypeRef("Symbol"), "Function": TypeRef("Function"), "IndexedSymbol": TypeRef("IndexedSymbol"),
+                       "_process_subscript_and_names": ("__contract__", "process")})
+            ex = FE.make_exec(src, UNIT, globals_extra=gg, contracts={"Symbol": ctor("Symbol"), "Function": ctor("Function"), "IndexedSymbol": ctor("IndexedSymbol"),
+                                                                      "process": process_contract}, models={"__truth__": truth_model})
+            second = Obj("ArgumentsOrIndex", {})
+
+            def setup(ex, ctx, fn=fn, passed=passed, extra_pos=extra_pos, has_subscript=has_subscript):
+                kw = {"display_symbol": dsym, "display_latex": dlat}
+                if has_subscript:
+                    kw["subscript"] = subs
+                kw.update(passed)
+                return [source] + ([second] if extra_pos else []), kw, None
+
+            def post(ex, ctx, out, info, cls=cls, passed=passed, has_subscript=has_subscript, extra_pos=extra_pos):
+                made = ctx.ghost.get("ctor")
+                if out[0] != "return" or made is None or made[0] != cls:
+                    yield f"constructs-a-{cls}", z3.BoolVal(False)
+                    return
+                _, a, k = made
+                wc, wl = (want_code, want_latex) if has_subscript else (base_code, base_latex)
+                yield "clone-display-name:override-or-source's(+_subscript)", a[0] == wc
+                dpos = 1 + extra_pos
+                yield "clone-keeps-the-source-dimension", a[dpos] == src_dim if len(a) > dpos and z3.is_expr(a[dpos]) else z3.BoolVal(False)
+                kl = k.get("display_latex")
+                yield "clone-latex-name:override-or-source's(+_{subscript})", (kl == wl) if kl is not None and z3.is_expr(kl) else z3.BoolVal(False)
+                fwd = {x: y for x, y in k.items() if x != "display_latex"}
+                want = passed if passed else SRC_ASSUME
+                yield ("clone-assumptions:passed-ones" if passed else "clone-assumptions:source's-when-none-are-passed"), z3.BoolVal(fwd == want)
+                if extra_pos:
+                    yield "forwards-arguments/index", z3.BoolVal(a[1] is second or (isinstance(a[1], Obj) and a[1].cls == "ArgumentsOrIndex"))
+
+            verify_function(ex, fn, setup, post)
+            tag = f"{fn}[assumptions={'passed' if passed else 'none'}]"
+            ex.obligations = [(n.replace(f"/{fn}/", f"/{tag}/"), h, g_, s_, c_ or _clone_conc(fn, bool(passed))) for n, h, g_, s_, c_ in ex.obligations]
+            execs.append(ex)
+
+    # ---------------- Symbol.__new__ / __init__ : internal name is next_name("SYM"), display name kept separately
+    def symnew(ex, ctx, args, kw):
+        cc = ctx.fork()
+        cc.ghost["sym_new"] = (tuple(args), dict(kw))
+        return [(cc, Obj("Symbol", {"name": args[1]}))]
+
+    fresh = z3.String("fresh_name")
+
+    def next_name_contract(ex, ctx, args, kw):
+        cc = ctx.fork()
+        cc.ghost["next_name_prefix"] = args[0]
+        return [(cc, fresh)]
+
+    gg = dict(g)
+    gg.update({"SymSymbol": TypeRef("SymSymbol"), "next_name": ("__contract__", "next_name")})
+    ex = FE.make_exec(src, UNIT, globals_extra=gg, contracts={"next_name": next_name_contract},
+                      models={"__method__": lambda ex, ctx, base, attr, args, kw: (symnew(ex, ctx, args, kw) if isinstance(base, TypeRef) and base.name == "SymSymbol" and attr == "__new__" else None)},
+                      attr_model=lambda ex, ctx, base, attr: ([(ctx, ("__method__", base, attr))] if isinstance(base, TypeRef) and base.name == "SymSymbol" else None))
+    verify_function(ex, "Symbol.__new__", lambda ex, ctx: ([TypeRef("Symbol"), opt_str("display_symbol"), z3.Const("dimension", M.Dim)], {"display_latex": opt_str("display_latex"), "real": True}, None),
+                    lambda ex, ctx, out, info: iter([
+                        ("internal-name-is-a-fresh-generated-name(prefix-SYM)", z3.BoolVal(ctx.ghost.get("next_name_prefix") == "SYM" and ctx.ghost.get("sym_new") is not None and
+                                                                                         ctx.ghost["sym_new"][0][1] is fresh)),
+                        ("display-name-is-not-used-as-the-SymPy-name;assumptions-forwarded", z3.BoolVal(ctx.ghost.get("sym_new") is not None and ctx.ghost["sym_new"][1] == {"real": True}))]))
+    execs.append(ex)
+
+    for ex in execs:
+        obs.extend(discharge(ex, UNIT))
+
+    # ---------------- prefixes used in the tree: alphabetic, so prefix++digits is injective on (prefix, n)
+    prefixes, sites = set(), []
+    for p in sorted(PKG.rglob("*.py")):
+        try:
+            t = ast.parse(p.read_text())
+        except SyntaxError:
+            continue
+        for n in ast.walk(t):
+            if isinstance(n, ast.Call) and isinstance(n.func, ast.Name) and n.func.id in ("next_name", "next_id"):
+                rel = f"{p.relative_to(PKG)}:{n.lineno}"
+                if n.args and isinstance(n.args[0], ast.Constant) and isinstance(n.args[0].value, str):
+                    prefixes.add((n.func.id, n.args[0].value))
+                    sites.append(rel)
+                elif not n.args and n.func.id == "next_id":
+                    prefixes.add(("next_id", ""))
+                elif n.args and isinstance(n.args[0], ast.Name) and str(p).endswith("symbols.py") and n.func.id == "next_id":
+                    pass  # next_name's own forwarding call
+                else:
+                    obs.append(Ob(f"{UNIT}/prefixes/call-with-non-literal-prefix@{rel}", REFUTED, "ast-scan", 0.0, ast.unparse(n), rel, {"reproduced": False, "script": None}))
+    name_prefixes = sorted({p for f, p in prefixes if f == "next_name"})
+    ok = all(p.isalpha() for p in name_prefixes) and len(name_prefixes) >= 4
+    obs.append(Ob(f"{UNIT}/prefixes/generated-name-prefixes-are-alphabetic(so prefix++decimal(n) is injective)", PROVED if ok else REFUTED, "ast-scan", 0.0,
+                  f"prefixes: {name_prefixes}", "", None if ok else {"reproduced": False, "script": None}))
+    # lemma (strings): for alphabetic p, q and digit strings a, b: p++a == q++b and p != q is impossible when neither ends in a digit
+    report.extend(obs)
+    report.extra["name_prefixes"] = name_prefixes
+    report.extra["name_generation_sites"] = len(sites)
+    for f in ("next_name", "_process_subscript_and_names", "DimensionSymbol.__init__", "Symbol.__new__", "clone_as_symbol", "clone_as_function", "clone_as_indexed"):
+        report.function(f"symplyphysics.core.symbols.symbols.{f}", PKG / src)
+    bounded_aliasing(report)
+
+
+def _clone_conc(fn, passed):
+    def conc(model, name):
+        script = (
+            "from symplyphysics import Symbol, units, clone_as_symbol, clone_as_function\n"
+            "from symplyphysics.core.symbols.symbols import clone_as_indexed\n"
+            "src = Symbol('m', units.mass, display_latex='\\\\mu', positive=True)\n"
+            f"kw = {({'negative': True} if passed else {})!r}\n"
+            + {"clone_as_symbol": "c = clone_as_symbol(src, subscript='0', **kw)\nname, latex, asm = c.display_name, c.display_latex, c.assumptions0\n",
+               "clone_as_function": "c = clone_as_function(src, [src], subscript='0', **kw)\nname, latex, asm = c.display_name, c.display_latex, c(src).assumptions0\n",
+               "clone_as_indexed": "c = clone_as_indexed(src, **kw)\nname, latex, asm = c.display_name + '_0', c.display_latex + '_{0}', c.assumptions0\n"}[fn] +
+            "assert c.dimension == src.dimension, ('dimension', c.dimension)\n"
+            "assert name == 'm_0' and latex == '\\\\mu_{0}', (name, latex)\n"
+            + ("assert asm.get('negative') is True, asm\n" if passed else "assert asm.get('positive') is True, ('source assumptions not kept', asm)\n"))
+        return try_replay(script)
+    return conc
+
+
+def bounded_aliasing(report):
+    """SymPy-level non-aliasing of objects with colliding display names (assumed structural equality; bounded stand-in)"""
+    import sympy as sp
+    from symplyphysics import Symbol, Function, Quantity, units, clone_as_symbol, clone_as_function
+    from symplyphysics.core.symbols.symbols import IndexedSymbol, print_expression
+    from symplyphysics.core.coordinate_systems.coordinate_systems import CoordinateSystem
+    failures, count = [], 0
+    objs = []
+    for i in range(12):
+        objs += [Symbol("x", units.length), Symbol("x", units.length, positive=True), clone_as_symbol(objs[0] if objs else Symbol("x")), Quantity(1 * units.meter, display_symbol="x")]
+    fns = [Function("x", [objs[0]], units.length) for _ in range(6)] + [clone_as_function(objs[0], [objs[1]]) for _ in range(6)]
+    idx = [IndexedSymbol("x", None, units.length) for _ in range(6)]
+    for a, b in itertools.combinations(objs + idx, 2):
+        count += 1
+        if a == b or hash(a) == hash(b) and a == b:
+            failures.append({"name": f"C09/bounded/distinct-objects-compare-equal", "detail": f"{a!r} == {b!r}", "replay": {"reproduced": True, "script": None}})
+    s = [o for o in objs if isinstance(o, Symbol)][:8]
+    e = sum((i + 2) * v**(i + 1) for i, v in enumerate(s))
+    for i, v in enumerate(s):
+        count += 3
+        d = sp.diff(e, v)
+        if d != (i + 2) * (i + 1) * v**i:
+            failures.append({"name": "C09/bounded/diff-affects-another-symbol", "detail": str(d), "replay": {"reproduced": True, "script": None}})
+        r = e.subs(v, 0)
+        if any(w not in r.free_symbols for w in s if w is not v) or v in r.free_symbols:
+            failures.append({"name": "C09/bounded/subs-affects-another-symbol", "detail": str(r), "replay": {"reproduced": True, "script": None}})
+        sol = sp.solve(sp.Eq(v * s[(i + 1) % len(s)], 1), v)
+        if sol != [1 / s[(i + 1) % len(s)]]:
+            failures.append({"name": "C09/bounded/solve-affects-another-symbol", "detail": str(sol), "replay": {"reproduced": True, "script": None}})
+    fa, fb = fns[0], fns[1]
+    t = objs[0]
+    count += 2
+    if fa == fb or sp.diff(fa(t) * fb(t), t) == 2 * fa(t) * sp.diff(fa(t), t):
+        failures.append({"name": "C09/bounded/functions-alias", "detail": "", "replay": {"reproduced": True, "script": None}})
+    # printing shows display names, never generated internal names
+    for o in [objs[0], objs[3], fns[0](objs[0]), objs[0] * objs[1] + fns[1](objs[4])]:
+        count += 1
+        txt = print_expression(o)
+        if any(p in txt for p in ("SYM", "FUN", "QTY")):
+            failures.append({"name": "C09/bounded/internal-name-printed", "detail": txt, "replay": {"reproduced": True, "script": None}})
+    cs = [CoordinateSystem() for _ in range(4)]
+    for a, b in itertools.combinations(cs, 2):
+        count += 1
+        if a.coord_system == b.coord_system:
+            failures.append({"name": "C09/bounded/coordinate-systems-alias", "detail": "", "replay": {"reproduced": True, "script": None}})
+    report.add_bounded("SymPy-level non-aliasing (==, hash, diff, subs, solve) and pretty printing of objects with colliding display names",
+                       "48 symbols/quantities + 12 functions + 6 indexed + 4 coordinate systems, all named 'x'", count, not failures, failures)
+    report.add_out_of_reach("non-aliasing under subs/solve/diff for all creation histories", "follows from fresh generated names (proved) plus SymPy's structural "
+                            "equality of Symbol/Function/Quantity by (class, name, assumptions), which is external code: assumed, bounded stand-in only")
